@@ -31,6 +31,7 @@ ASSUMPTIONS = [
 A = [" ", "\t", "\n", "_", "a", "\xa0", "\r", "\x0b"]
 NMAX = {"quick": 6, "thorough": 7}
 PUMP = {"quick": [9, 33, 257], "thorough": [9, 17, 33, 65, 129, 257, 1025, 4099]}
+BIG = [65536, 131072]  # sizes at which block-wise processing would switch on: texts a few characters longer than these
 STEPS = ["inline_whitespace", "all_whitespace", "underscores"]
 BAD = ["nope", "HTML", "", " html", None, 5, "Html", "all_whitespace "]
 TEXTS = ["foo", "bar baz", " ", "a &amp; b", "x&lt;y", "\n  qux\n"]
@@ -185,6 +186,9 @@ HTML_EDGE = [
 def replay(case):
     k = case["kind"]
     if k == "string":
+        if "s_pumped" in case:
+            u, big, shift = case["s_pumped"]
+            case = dict(case, s=(u * (big // len(u) + 4))[shift : shift + big + 7])
         res = check_string(case["s"])
     elif k == "steps":
         res = check_steps(case["s"], case["steps"])
@@ -204,7 +208,7 @@ def shards(tier, seed):
     for r in range(16):
         out.append({"part": "steps", "r": r, "n": 16})
     for r in range(8):
-        out.append({"part": "pumped", "r": r, "n": 8, "copies": PUMP[tier]})
+        out.append({"part": "pumped", "r": r, "n": 8, "copies": PUMP[tier], "big2": tier == "thorough"})
     depth, sib = (1, 3) if tier == "quick" else (2, 2)
     for root in ("div", "p"):
         for r in range(24):
@@ -275,6 +279,14 @@ def run_shard(sh):
                 if n <= 40:
                     for sl in lists2:
                         record({"kind": "steps", "s": s, "steps": list(sl)}, h64([s, sl]), check_steps(s, sl), True)
+        # texts just beyond 64 KiB / 128 KiB, phase-shifted so that every run of the unit crosses the block boundary once
+        for u in units[sh["r"] :: sh["n"]]:
+            if len(u) < 2 and sh["r"] % 2:
+                continue
+            for big in BIG if (len(u) >= 2 and sh.get("big2")) else BIG[:1]:
+                for shift in range(len(u)):
+                    s = (u * (big // len(u) + 4))[shift : shift + big + 7]
+                    record({"kind": "string", "s_pumped": [u, big, shift]}, h64(["big", u, big, shift]), check_string(s), True)
         kids = [it for it in gen(1) if "<" in it[0]]
         for it in kids[sh["r"] :: sh["n"]]:
             for n in sh["copies"]:
